@@ -53,6 +53,9 @@ pub enum Ev {
     /// ... and later restores the checkpoint: "crash and restart from durable state". The clock
     /// keeps running in between.
     Restore,
+    /// The scanners are `Send`: each of the next n calls on the main instance (feed, poll, reset)
+    /// runs on another OS thread than the one before (a fresh thread per call; the caller waits).
+    Hop { n: u8 },
 }
 
 #[derive(Clone, Debug, PartialEq, Eq, Hash)]
@@ -106,6 +109,7 @@ impl Ev {
             Ev::Repeat { k, n } => J::arr([J::s("repeat"), ji(*k), ji(*n)]),
             Ev::Snapshot => J::arr([J::s("snapshot")]),
             Ev::Restore => J::arr([J::s("restore")]),
+            Ev::Hop { n } => J::arr([J::s("hop"), ji(*n)]),
             Ev::Fork { k, burst } => J::arr([
                 J::s("fork"),
                 ji(*k),
@@ -164,6 +168,7 @@ impl Ev {
             "repeat" => Ev::Repeat { k: n(1, 16)? as u8, n: n(2, 65535)? as u16 },
             "snapshot" => Ev::Snapshot,
             "restore" => Ev::Restore,
+            "hop" => Ev::Hop { n: n(1, 255)? as u8 },
             "fork" => {
                 let mut burst = Vec::new();
                 for b in a.get(2).and_then(|x| x.as_arr()).ok_or("fork: burst")? {
@@ -272,6 +277,10 @@ impl Trace {
                 }
                 Ev::Snapshot => h.b(9),
                 Ev::Restore => h.b(10),
+                Ev::Hop { n } => {
+                    h.b(13);
+                    h.b(*n);
+                }
                 Ev::Fork { k, burst } => {
                     h.b(8);
                     h.b(*k);
